@@ -91,11 +91,12 @@ def main():
 
     repo = os.path.realpath(os.environ.get("VERIF_REPO", "/repo"))
     cc.seeds()
-    # address space: current + 3 GiB
+    # address space: current + 1 GiB (legitimate loads of the corpus need < 150 MB; a loader that keeps growing is stopped
+    # by a MemoryError long before the CPU budget, independently of machine load)
     try:
         with open("/proc/self/status") as f:
             vm = [int(l.split()[1]) for l in f if l.startswith("VmSize:")][0] * 1024
-        resource.setrlimit(resource.RLIMIT_AS, (vm + 3 * 2**30, vm + 3 * 2**30))
+        resource.setrlimit(resource.RLIMIT_AS, (vm + 2**30, vm + 2**30))
     except BaseException:  # noqa
         pass
     signal.signal(signal.SIGVTALRM, _on_timer)
